@@ -134,6 +134,9 @@ def gen_plan(seed, index, tier):
         "ties": [rng.randint(0, 1) for _ in range(400)],
         "clock": [[rng.choice(["fwd", "fwd", "back", "stall"]), rng.choice([1e-3, 1.0, 100.0, 1e6])] for _ in range(80)],
         "stall_rerun": rng.random() < 0.25,
+        # containers at the seam (rows are matched by position, whatever the index labels say)
+        "yform": rng.choice(["nd", "nd", "list", "series"]), "gform": rng.choice(["nd", "nd", "list", "series"]),
+        "scramble_index": rng.random() < 0.4,
     }
     # history: an earlier fit of the same estimator object on the same X with other labels/groups
     plan["prior_rows"] = derive_rows(rng, rows) if (index >= 40 and rng.random() < 0.2) else None
@@ -154,9 +157,27 @@ def build_X(plan):
     x = [float(r[0]) for r in rows]
     if plan["xform"] == "nd":
         return np.array(x).reshape(-1, 1)
+    idx = _labels(plan, len(x), 1)
     if plan["xform"] == "df2":
-        return pd.DataFrame({"x": x, "noise": [float((i * 7) % 3) for i in range(len(x))]})
-    return pd.DataFrame({"x": x})
+        return pd.DataFrame({"x": x, "noise": [float((i * 7) % 3) for i in range(len(x))]}, index=idx)
+    return pd.DataFrame({"x": x}, index=idx)
+
+
+def _labels(plan, n, salt):
+    """Index labels for pandas containers: default, or a scrambled permutation (rows are matched by position)."""
+    if not plan.get("scramble_index"):
+        return None
+    return [(i * 7 + 3 * salt) % n if np.gcd(7, n) == 1 else (n - 1 - i) for i in range(n)]
+
+
+def wrap(plan, values, kind, salt):
+    """Hand labels / sensitive features over as ndarray, list or pandas Series with scrambled index labels."""
+    form = plan.get(kind, "nd")
+    if form == "list":
+        return list(values.tolist())
+    if form == "series":
+        return pd.Series(values, index=_labels(plan, len(values), salt))
+    return values
 
 
 def index_key(t):
@@ -193,7 +214,7 @@ def fit_once(plan, ctx, stall=False):
         if plan["nu"] is None:
             eg.nu = None  # keep recorded finding F-C19-2 (nu overwritten by fit) out of this check
     with ctx.clock_installed():
-        ok, ret, site = ctx.call(eg.fit, X, y, sensitive_features=g)
+        ok, ret, site = ctx.call(eg.fit, X, wrap(plan, y, "yform", 2), sensitive_features=wrap(plan, g, "gform", 3))
     ctx.clock.force_stall = False
     return ok, ret, site, eg, X, y, g
 
@@ -352,6 +373,12 @@ def shrink_candidates(plan):
         yield mod(max_iter=mi)
     if p["xform"] != "df":
         yield mod(xform="df")
+    if p.get("scramble_index"):
+        yield mod(scramble_index=False)
+    if p.get("yform", "nd") != "nd":
+        yield mod(yform="nd")
+    if p.get("gform", "nd") != "nd":
+        yield mod(gform="nd")
     if p["eta0"] != 2.0:
         yield mod(eta0=2.0)
     if p["nu"] is not None and p["nu"] != 1e-3:
